@@ -676,7 +676,11 @@ impl DebugSession {
                 let mut lock = self.io.lock().unwrap();
                 lock.read_message()?
             };
-            let req: DapRequest = serde_json::from_value(msg)?;
+            // a message that is not a well formed request envelope is skipped, it must not
+            // terminate the adapter (there is no request to answer either)
+            let Ok(req) = serde_json::from_value::<DapRequest>(msg) else {
+                continue;
+            };
             if req.r#type != "request" {
                 continue;
             }
